@@ -834,7 +834,7 @@ func (runInfo *runInfoStruct) runDeferStmt(stmt *ast.DeferStmt) {
 // The current rv is kept. An error from a deferred call becomes the run error
 // unless the run already failed with a real error.
 func (runInfo *runInfoStruct) runDefers() {
-	rv, err := runInfo.rv, runInfo.err
+	rv, err := copyOfElement(runInfo.rv), runInfo.err
 	defers := runInfo.defers
 	runInfo.defers = nil
 	for i := len(defers) - 1; i >= 0; i-- {
